@@ -48,5 +48,10 @@ Init == \/ \E k \in Kinds, w \in Windows, s \in Shapes, rc \in RepeatCounts : sc
         \/ \E k \in Kinds, d \in {0, 1, 65000}, pd \in {0, 1, 65000}, n \in NameLens, p \in PathLens, l \in LocalCounts, np \in {1, 3}, ex \in BOOLEAN :
               sc = Mk(k, 0, 1, d, pd, n, p, l, 1, np, ex)
 Next == UNCHANGED sc
+\* (C) bodies whose number of direct child nodes sits at the boundaries of the encodings of a node count (one byte, two
+\* bytes, 15 bits, the maximum a body may hold), as the main body, a procedure body, or the body of a nested block
+BodyCounts == {1, 127, 128, 255, 256, 32767, 32768, 40000, 65535}
+BodyPlaces == {"main", "proc", "repeat", "if", "else", "while"}
+ASSUME PrintT(ToJson([tag |-> "astbig", cases |-> {[kind |-> k, place |-> pl, count |-> c] : k \in Kinds, pl \in BodyPlaces, c \in BodyCounts}]))
 Emit == PrintT(ToJson([tag |-> "ast"] @@ sc))
 =============================================================================
